@@ -117,14 +117,37 @@ def compress_rule(prog, fn, outer_param=None, key_fn=None):
         errs.append("?expected one SddAnd::new and one removal, found %d/%d" % (len(news), len(rms)))
     else:
         p, s_ = strip(news[0].args[0]), strip(news[0].args[1])
-        if not (mir.is_call(p, "or") and {acc(p[2][-2], "prime"), acc(p[2][-1], "prime")} == {"i", "j"}):
+        # accumulator form: the merged prime is collected in a local over the inner loop (seeded with prime(node[i]),
+        # `acc = acc ∨ prime(node[j])` on a merge) and node[i] is written once, after the loop — then nothing overwrites
+        # node[i] in the loop and a prime read before it is not stale
+        acc_form = False
+        if p[0] == "mu" and p[1] == hj:
+            init_p = strip(te.mu_init.get((p[1], p[2]), ("top",)))
+            ups_p = te.mu_update.get((p[1], p[2]), [])
+
+            def upd_ok(u):
+                u = strip(u)
+                if u == p:
+                    return True
+                if u[0] in ("gamma", "phi"):
+                    return all(upd_ok(v) for _, v in u[2])
+                return mir.is_call(u, "or") and ((strip(u[2][-2]) == p and acc(u[2][-1], "prime") == "j") or
+                                                  (strip(u[2][-1]) == p and acc(u[2][-2], "prime") == "j"))
+            in_loop_i = [st for st in te.stores if st[0] in cfg.loop_headers[hj] and elem(st[1]) == "i"]
+            after_i = [st for st in te.stores if st[0] not in cfg.loop_headers[hj] and elem(st[1]) == "i" and
+                       any(strip(x) == p or (x[0] == "mu" and (x[1], x[2]) == (p[1], p[2])) for x in mir.subterms(st[2]))]
+            if acc(init_p, "prime") == "i" and ups_p and all(upd_ok(u) for u in ups_p) and not in_loop_i and (after_i or news[0].bb not in cfg.loop_headers[hj]):
+                acc_form = True
+        if acc_form:
+            pass
+        elif not (mir.is_call(p, "or") and {acc(p[2][-2], "prime"), acc(p[2][-1], "prime")} == {"i", "j"}):
             errs.append("merged prime is %s, expected prime(node[i]) ∨ prime(node[j])" % show(p)[:80])
         if acc(s_, "sub") not in ("i", "j"):
             errs.append("merged sub is %s, expected the common sub" % show(s_)[:60])
         # node[i] is overwritten by every merge, so the prime of node[i] that enters a merge has to be read in that very
         # iteration: a value read before the inner loop is the prime node[i] had *before* earlier merges of this i
         body_j = cfg.loop_headers[hj]
-        for cs in te.calls:
+        for cs in ([] if acc_form else te.calls):
             if cs.callee.name == "prime" and cs.args and elem(cs.args[0]) == "i" and cs.bb not in body_j and \
                     any(strip(cs.term) == strip(x) for x in [strip(p)] + list(mir.subterms(p))):
                 errs.append("the prime of node[i] that is merged is read before the inner loop (line %s) although every merge "
@@ -132,7 +155,7 @@ def compress_rule(prog, fn, outer_param=None, key_fn=None):
                             "primes no longer cover everything" % cs.line)
         stores = [st for st in te.stores if st[0] in cfg.loop_headers[hj]]
         tgt = [elem(st[1]) for st in stores]
-        if "i" not in tgt:
+        if "i" not in tgt and not acc_form:
             errs.append("the merged element is not written back to node[i] (stores: %s)" % [show(st[1])[:40] for st in stores])
         if strip(rms[0].args[1]) != jmu:
             errs.append("the removed position is %s, not j" % show(rms[0].args[1])[:40])
